@@ -24,7 +24,7 @@ RULE = ("tables and query points are drawn from VERIF_SEED (families: smooth, ji
         "prefactors of either sign); a case is non-trivial when model and implementation both answer ok or both stop; "
         "it is counted once per distinct (op, family, size class, query class: knot / knot neighbour / interior / "
         "extrapolation zone / derivative order)")
-CORR_ONLY = ["rounding-level overshoot (bounded by the stated tolerance 256*eps*max|y|, measured in input_distribution.worst_*)",
+CORR_ONLY = ["rounding-level overshoot (bounded by K_OVER=256 eps*max|y|; worst observed ~16 eps*max|y|, see input_distribution.worst_*)",
              "the 1% extrapolation zone: values and derivatives compared against the model, no monotonicity claim there"]
 ASSUMPTIONS = ["unit factors x_dim/f_dim are compared on tables whose products with the factor are exact in double "
                "(float32 tables and factors): the model multiplies exactly, the C++ rounds each product",
@@ -32,10 +32,10 @@ ASSUMPTIONS = ["unit factors x_dim/f_dim are compared on tables whose products w
 TRUSTED = []
 
 K_VAL = 256        # value correspondence, in eps*max(|y_j|,|y_j+1|)*|pref|
-K_DER = 1024       # derivative correspondence, in eps*max|y|/h^k*|pref|
-K_OVER = 192       # rounding-level overshoot / monotonicity slack of the oracle
+K_DER = 2048       # derivative correspondence, in eps*max|y|/h^k*|pref|
+K_OVER = 256       # rounding-level overshoot / monotonicity slack of the oracle
 K_TAY = 1024       # Taylor consistency of reported derivatives (sum-of-terms scale)
-K_2D = 64
+K_2D = 96
 
 INF = math.inf
 
